@@ -18,13 +18,13 @@ check("C19", "exploration",
       "DESIGN.md §3 C19")
 
 check("C06", "model_checking",
-      "exhaustive operation-sequence enumeration of the real Parameter<T>/Tweener against a reference tween model (all update-step partitions x overlapping set() placements), plus documented laws",
+      "exhaustive operation-sequence enumeration of the real Parameter<T>/Tweener against a reference tween model (all update-step partitions x overlapping set() placements), plus documented laws; engine scenes rendered under a fixed set of device-callback partitions",
       "Every sequence of <= 6 updates with dt in {0.5,1,2} (all 3^6 partitions), for 11 tweenable types and the tweener modulator, 8 start modes, 5 durations (incl. 0 and shorter than one update), 7 easings, ordered value pairs and every placement of a second (thorough: third) overlapping set(), is executed on the real code in lock-step with an independent reference model; value, finished-flag, chunk continuity (previous_value/interpolated_value), range, exact end value, start-time and partition-independence laws are asserted after every update. Bounded exhaustive: all histories up to the stated depth over the stated alphabet.",
       "time steps are binary-exact; Quat compared with an f64 slerp reference (1e-5 rad), other types bit-exactly; behaviour of a clock pausing in mid-tween is not fixed by the statement and not demanded; Value::FromModulator targets are covered under C17.",
       "DESIGN.md §3 C06")
 
 check("C03", "model_checking",
-      "exhaustive command-sequence enumeration (depth-bounded, 13-letter alphabet) of the real static/streaming Sound objects in lock-step with a 7-state reference machine",
+      "exhaustive command-sequence enumeration (depth-bounded, 13-letter alphabet, plus every ordered pair of life-cycle commands issued in one callback interval) of the real static/streaming Sound objects in lock-step with a 7-state reference machine",
       "All command sequences of length <= 4 (quick) / 6 static, 5 streaming (thorough) over {none, pause(0/2s), resume(0/3s), resume_at(delayed/clock), stop(0/2s eased), seek_to, set_volume tween, clock advances, clock removed}, each letter followed by a callback, for static sounds, streaming sounds with the decoder kept ahead and streaming sounds with a starved decoder, looping-DC and finite shapes, own start time immediate/delayed/clock, chunk sizes 1 and 3, run against PlaybackModel: reported state after every callback, per-frame gain envelope, exact silence and frozen position in Paused/WaitingToResume/Stopped, fade timing within one callback, monotone gain, Stopped absorbing, natural end window; plus a manager pass for unloading at the next callback and slot reuse with a capacity-1 track.",
       "decoder thread paced deterministically through the verif-hooks gate; natural end may be reported up to 4 source frames late; transitions the statement leaves open (e.g. resume during Stopping) follow the documented command semantics; whether a seek issued within the resampler look-ahead of the end still takes effect is left to C04.",
       "DESIGN.md §3 C03")
@@ -54,13 +54,13 @@ check("C07", "model_checking",
       "DESIGN.md §3 C07")
 
 check("C02", "model_checking",
-      "exhaustive enumeration of small mixer configurations and add/remove/pause histories on the real manager in lock-step with a reference evaluation of the documented signal flow (probe sounds and probe effects log every process call)",
+      "exhaustive enumeration of small mixer configurations and add/remove/pause/tweened-volume histories on the real manager in lock-step with a reference evaluation of the documented signal flow (probe sounds and probe effects log every process call); preemption-bounded DFS over real thread interleavings of building a routed branch with the audio thread's adoption step",
       "All 9 forests of <= 3 sub-tracks x internal buffer {1,2,3,4} x {0,1,2} send tracks x every subset of {main, tracks} carrying an index-coded probe sound x one perturbation at a time (volume -6.02 / -60 dB on each track, main, send, route; all -6 dB; two-buffer volume tween; three order-sensitive probe-effect chains on each track, main, send; two sounds on one track) x callback patterns from {1,3,4,7} frames, plus every history of length <= 3 (4 thorough) over {play sound on main / each track, drop track handle, finish sound, pause, resume, drop send handle}. After every callback the rendered frames are compared with the reference sum (exact silence demanded where the reference is silent), and every probe sound / effect must have been asked for exactly the frames of the callback, in order, in slices <= the internal buffer, with dt = 1/sample rate; monitors: no panic, no allocation, output well-formed, no destruction on the audio thread.",
       "trees of <= 3 sub-tracks stand for all trees; f32 summation order is not specified, so comparison is within 4e-6 (signals are >= 2^-7); built-in effects are replaced by order-sensitive probe effects here (their DSP is C13/C14's subject).",
       "DESIGN.md §3 C02")
 
 check("C12", "model_checking",
-      "exhaustive history enumeration on real track trees in lock-step with a tree-freeze / removal reference model (index-coded sounds make positions audible)",
+      "exhaustive history enumeration on real track trees in lock-step with a tree-freeze / removal reference model (index-coded sounds make positions audible); preemption-bounded DFS over real thread interleavings of TrackHandle::state() reads with the audio thread's state publication",
       "Three tree shapes (chain of 2, chain of 3, parent with two children), every track carrying an index-coded looping probe sound, x 3 persistence variants x every history of length <= 3 (4 thorough) over {none, start clock, remove clock} and per track {pause instant / 2 frames, resume instant / 2 frames, resume_at delayed, resume_at on a clock, drop handle, finish sound, add nested child, add nested child then drop the handle, play sound then drop the handle}; each letter is followed by a 3-frame callback with internal buffer 2. After every callback the rendered audio is compared exactly with the reference (a frozen subtree is silent and every sound continues with exactly the next index after a resume; removal at the next callback / the one after if not adopted / never while a descendant track is alive / not before a persisting track's sounds finished) and TrackHandle::state() of every live handle is called inside catch_unwind and compared with the model's state.",
       "what a track whose scheduled resume can never happen should report is not fixed by the statement beyond 'one of the five states' (reference: Paused); partition independence of these behaviours is C11's subject.",
       "DESIGN.md §3 C12")
@@ -104,7 +104,7 @@ check("C16", "model_checking",
       "streaming sounds use the same dt stepping (C09); echoes in flight at the moment of a rate change are not judged (kira clears the delay line).",
       "DESIGN.md §3 C16")
 check("C17", "model_checking",
-      "exhaustive enumeration of LFO / tweener configurations and handle operations against reference oscillator and tween models, of modulator -> parameter chains through the real renderer, and of all add/drop/callback histories up to a depth against a counting model",
+      "exhaustive enumeration of LFO / tweener configurations and handle operations against reference oscillator and tween models, of modulator -> parameter chains through the real renderer, of all add/drop/callback histories up to a depth against a counting model, and preemption-bounded DFS over real thread interleavings of (add modulator; play linked sound) with the audio thread's adoption step",
       "Direct LFO: waveform x frequency x amplitude x offset x phase x dt x one of 10 handle operations at 3 positions (pairs in thorough) over 12 updates vs LfoModel; direct tweener vs a tween reference; Mapping::map over ranges (incl. inverted) x easings x inputs for 4 value types; chains through the real renderer: 9 targets (sound volume, track volume, main volume, effect parameter, clock speed, LFO offset / amplitude / frequency, two-stage chain) x internal buffer {1,3,8} x 10 sources x 7 mappings x link mode x drops: the linked parameter in chunk c must equal mapping(modulator value read in chunk c) and hold after the source is removed; histories: every sequence of length 7 (9) over {add probe modulator, drop oldest / newest / middle, callback}: each modulator updated exactly once per chunk with the chunk's dt, older sources already updated when read, removed / stale ids read None.",
       "sample rate 8 Hz makes all times dyadic; values within 1e-9 of a waveform discontinuity are accepted on either side.",
       "DESIGN.md §3 C17")
@@ -115,7 +115,7 @@ check("C18", "fault_enumeration",
       "DESIGN.md §3 C18")
 
 check("C01", "exploration",
-      "exhaustive enumeration of boundary-value lattices of every builder / handle argument and of API histories up to a depth, every callback executed under monitors (panic, watchdog, allocation counter, sample well-formedness)",
+      "exhaustive enumeration of boundary-value lattices of every builder / handle argument (incl. every effect setter tweened between every ordered pair of lattice values) and of API histories up to a depth, every callback executed under monitors (panic, watchdog, allocation counter, sample well-formedness); the same monitors run inside the E2-explored callbacks of C02/C05/C07/C08/C12/C17",
       "F1: {static, streaming} sounds x length {0,1,2,5} x slice {none, empty, inner, inverted, beyond the data} x loop region {none, whole, empty, inverted, beyond, end==len} x start position {0,1,len-1,len,len+3} x reverse x rate {1,-1,0,0.5,3} x 18 handle commands with boundary arguments (negative / beyond-the-end seeks, empty / inverted set_loop_region, -60 dB, +40 dB, pan +-7, rate +-0, 1e9 s tweens); FX: 14 extreme finite values (1e9, 1e300, +-1e12 s, +-1e30 dB, 1e15 samples) x {static, streaming}; F2: every parameter of every built-in effect (and track volume) taken one at a time through {0, -1, 1, 2, documented edges, Nyquist, sample rate, 1e-30, +-1e30, -60 dB +-1 ulp, zero / 1 ns durations} x sample rate {8000, 44100, 192000} x 5 input signals; F3: all API histories to depth 4 (5) over 16 letters (sounds, streaming sounds, nested / send / spatial tracks with effects, clocks, tweeners, LFO-linked volumes, listeners, drops, stops, pauses, callbacks) with all capacities 1 and with all capacities 0; F4: every depth-3 history with 1..8 channels (mono = mean of the stereo rendering, extra channels silent). Every callback: no panic, returns within the watchdog time, zero allocations / frees on the audio thread, every sample finite and in [-1, 1].",
       "'promptly' = terminates within 2-4 s for <= 16 frames and does no allocation; wall-clock latency is not measured; calls happen between callbacks here (their interleavings with callbacks are C07/C08's E2 part); panics raised on the caller's thread by builders for invalid arguments are counted, not judged.",
       "DESIGN.md §3 C01")
